@@ -483,14 +483,7 @@ func (p *uPacketPacker) MarshalInitialPacketPayload(pl payload, v protocol.Versi
 	// already planned and consumed the stream. Send them exactly as the packer produced
 	// them.
 	if p.flightPlanned {
-		var frameBytes []byte
-		for _, f := range pl.frames {
-			var err error
-			if frameBytes, err = f.Frame.Append(frameBytes, v); err != nil {
-				return nil, err
-			}
-		}
-		return frameBytes, nil
+		return appendFramesVerbatim(pl.frames, v)
 	}
 
 	var originalFrameBytes []byte
@@ -519,7 +512,10 @@ func (p *uPacketPacker) MarshalInitialPacketPayload(pl payload, v protocol.Versi
 	// parse crypto data
 	cryptoData, err := clienthellod.ReassembleCRYPTOFrames(qchframes)
 	if err != nil {
-		return nil, err
+		// [UQUIC] A retransmission can carry several lost ranges that are not adjacent
+		// (e.g. datagrams 0 and 2 of a three-datagram ClientHello were lost). They don't
+		// reassemble into one slice a frame builder could re-frame: send them as they are.
+		return appendFramesVerbatim(pl.frames, v)
 	}
 
 	// [UQUIC] Compute baseOffset: the absolute QUIC crypto stream offset of cryptoData[0].
@@ -557,6 +553,18 @@ func (p *uPacketPacker) MarshalInitialPacketPayload(pl payload, v protocol.Versi
 		return result, err
 	}
 	return p.uSpec.InitialPacketSpec.FrameBuilder.Build(cryptoData)
+}
+
+// appendFramesVerbatim serializes the frames exactly as the packer produced them. [UQUIC]
+func appendFramesVerbatim(frames []ackhandler.Frame, v protocol.Version) ([]byte, error) {
+	var frameBytes []byte
+	for _, f := range frames {
+		var err error
+		if frameBytes, err = f.Frame.Append(frameBytes, v); err != nil {
+			return nil, err
+		}
+	}
+	return frameBytes, nil
 }
 
 func (p *uPacketPacker) PackPTOProbePacket(
